@@ -130,7 +130,7 @@ def handshake(ctx, kex, strict_c, strict_s, edit, short_timeout=False):
     return obs
 
 
-def rekey_session(role, peer_initial_strict, peer_rekey_marker, initiators):
+def rekey_session(role, peer_initial_strict, peer_rekey_marker, initiators, marker_pos=None, kex_names=None):
     """initial handshake plus re-exchanges against a peer tool that follows the kex-strict specification whatever
     the tree under test does (the marker only counts in the first KEXINIT) and that sends or omits the marker in
     its later KEXINITs as told"""
@@ -140,7 +140,8 @@ def rekey_session(role, peer_initial_strict, peer_rekey_marker, initiators):
     kex = "curve25519-sha256@libssh.org"
     a, b = LoopSocket(), LoopSocket()
     a.link(b)
-    disabled = {"kex": [k for k in Transport._preferred_kex if k != kex]}
+    keep = kex_names or [kex]
+    disabled = {"kex": [k for k in Transport._preferred_kex if k not in keep]}
     sub_strict, = (True,)
     tc = Transport(a, disabled_algorithms=disabled, strict_kex=(sub_strict if role == "client" else peer_initial_strict))
     ts = Transport(b, disabled_algorithms=disabled, strict_kex=(sub_strict if role == "server" else peer_initial_strict))
@@ -155,13 +156,36 @@ def rekey_session(role, peer_initial_strict, peer_rekey_marker, initiators):
             peer.agreed_on_strict_kex = before
 
     peer._parse_kex_init = conformant_parse
+    if marker_pos is not None:
+        L.reorder_strict_marker(peer, marker_pos)      # the marker somewhere else than at the end of the list
     tap = L.Tap(sub)
     evs = threading.Event()
     ts.start_server(evs, L.make_server_class()())
-    tc.start_client(timeout=60)
-    if not evs.wait(60):
-        raise InfraError("server handshake did not finish")
-    out = {"role": role, "peer_initial_strict": peer_initial_strict, "peer_rekey_marker": peer_rekey_marker,
+    hs_exc = None
+    try:
+        tc.start_client(timeout=60)
+        if not evs.wait(60):
+            raise InfraError("server handshake did not finish")
+    except InfraError:
+        raise
+    except Exception as e:
+        hs_exc = e
+    if hs_exc is not None:
+        for t in (tc, ts):
+            t.join(10)
+        out = {"role": role, "marker_pos": marker_pos, "kex_list_length": len(keep),
+               "peer_initial_strict": peer_initial_strict, "peer_rekey_marker": peer_rekey_marker,
+               "initiators": list(initiators), "flags": [1 if sub.agreed_on_strict_kex else 0], "rekeys_ok": [],
+               "handshake_failed": repr(L.root_exc(sub.saved_exception) if sub.saved_exception is not None else hs_exc),
+               "peer_flag": 1 if peer.agreed_on_strict_kex else 0,
+               "active": 0, "err": "ended", "site": "-", "done": 1 if sub.initial_kex_done else 0,
+               "agreed": 1 if sub.agreed_on_strict_kex else 0, "seq_in": L.seq_in(sub), "seq_out": L.seq_out(sub),
+               "rx": list(tap.rx), "tx": list(tap.tx)}
+        for t in (tc, ts):
+            t.close()
+        return out
+    out = {"role": role, "marker_pos": marker_pos, "kex_list_length": len(keep),
+           "peer_initial_strict": peer_initial_strict, "peer_rekey_marker": peer_rekey_marker,
            "initiators": list(initiators), "flags": [1 if sub.agreed_on_strict_kex else 0], "rekeys_ok": []}
     peer.advertise_strict_kex = peer_rekey_marker
     def both_settled():
@@ -246,7 +270,8 @@ def run(ctx):
                 "hidden from the other side; also well-framed packets with an empty payload (three paddings) at every "
                 "position; non-trivial = the edit changes what a peer receives before NEWKEYS. Plus sessions with three "
                 "re-exchanges (either side initiating) against a specification-conformant peer whose later KEXINITs "
-                "omit, repeat or newly add the kex-strict marker")
+                "omit, repeat or newly add the kex-strict marker, or list it at any position of kex lists of "
+                "several lengths")
     ctx.trust("pv/lib_runloop.py Relay/Tap (plaintext packet parser, packetizer taps)",
               "kex engine contents (signatures, DH values) are unmodified in these runs: engineOk = true")
     L.write_generated(ctx)
@@ -393,15 +418,34 @@ def run(ctx):
             reqs += rq
 
     # ---------------- re-exchanges: strict mode is decided by the initial exchange, counters restart every time
-    rk_jobs = [(role, pis, prm, ini) for role in ("client", "server")
+    rk_jobs = [(role, pis, prm, ini, None, None) for role in ("client", "server")
                for pis, prm in ((True, False), (True, True), (False, False), (False, True))
                for ini in (("sub", "peer", "peer"), ("peer", "sub", "peer"))]
-    for role, pis, prm, ini in rk_jobs:
-        o = rekey_session(role, pis, prm, ini)
+    # the strict marker at every position of the peer's kex list, lists of several lengths (the other pseudo-name,
+    # ext-info-c of a client, stays where paramiko puts it)
+    from paramiko import Transport as _T
+    gex = "diffie-hellman-group-exchange-sha"
+    all_kex = [k for k in _T._preferred_kex if not k.startswith(gex)]
+    for role in ("client", "server"):
+        for names in ([all_kex[0]], all_kex[:3], all_kex):
+            positions = list(range(len(names) + 2)) if (len(names) <= 3 or ctx.thorough) else \
+                [0, 1, len(names) // 2, len(names) - 1, len(names), len(names) + 1]
+            for pos in positions:
+                rk_jobs.append((role, True, True, ("peer",), pos, names))
+    for role, pis, prm, ini, mpos, names in rk_jobs:
+        o = rekey_session(role, pis, prm, ini, mpos, names)
         case = {k: o[k] for k in ("role", "peer_initial_strict", "peer_rekey_marker", "initiators", "flags",
-                                  "rekeys_ok", "err")}
-        ctx.case(("rekey", role, pis, prm, ini), True)
+                                  "rekeys_ok", "err", "marker_pos", "kex_list_length")}
+        if mpos is not None:
+            ctx.dist("marker-position:%d-of-%d" % (mpos, o["kex_list_length"]))
+        ctx.case(("rekey", role, pis, prm, ini, mpos, len(names or [1])), True)
         ctx.dist("rekey:initial-%s:marker-%s" % ("strict" if pis else "plain", "sent" if prm else "omitted"))
+        if o.get("handshake_failed"):
+            # both ends offered strict mode and still the session did not come up (or died at the first packets):
+            # they disagree about the mode
+            ctx.fail("strict-agreement-wrong:marker-position", dict(case, peer_flag=o.get("peer_flag")),
+                     "subject agreed=%d, peer agreed=%s, then: %s" % (o["flags"][0], o.get("peer_flag"), o["handshake_failed"]))
+            continue
         late = (not pis) and prm     # a marker that first appears in a re-exchange: outside the property (peers must
         #                              not do it, receivers should ignore it); compared with the model only
         if not late:
